@@ -5699,6 +5699,14 @@ impl BytecodeVM {
                     .ok_or_else(|| JsError::internal_error("Invalid binding name constant"))?;
                 let val = self.get_reg(value).clone();
 
+                // The exports map is not traced by the collector and a value without a
+                // module-scope binding (export default <expression>) lives nowhere else
+                // until the module namespace is built: root it like the rest of the
+                // module's permanent state.
+                if let JsValue::Object(obj) = &val {
+                    interp.root_guard.guard(obj.cheap_clone());
+                }
+
                 // Store in interpreter's exports map
                 interp.exports.insert(
                     export_name_str,
